@@ -280,6 +280,18 @@ def gen_cases(rng, tier):
                            agg=rng.choice([None, 65001, 70000, 23456, 4294967295]))
         cases.append(mk(l, r, ['reach', f, NH4 if f == W.IPV4 else NH6, attrs, entries_for(rng, f, rng.randint(1, 5))], ['reach', 'as2']))
 
+    # ---- F2. the RFC 6793 4.2.3 corner matrix, complete on every run: AS capability pair x
+    # AS_PATH with / without wide AS numbers x AGGREGATOR absent / two-octet / wide / AS_TRANS
+    for as4 in [(True, False), (False, True), (False, False), (True, True)]:
+        for path in ([65000, 400000, 300000], [65000, 64512], [4200000000]):
+            for agg in (None, 65001, 70000, 23456):
+                for f in (W.IPV4, W.IPV6):
+                    l, r = caps_pair([W.IPV4, W.IPV6], as4=as4)
+                    attrs = [[0, 1, 0, 0, ['b', []]], [1, 2, 0, 0, ['b', seg(2, path)]]]
+                    if agg is not None:
+                        attrs.append([1, 7, 0, 0, ['b', W.be32(agg) + [192, 0, 2, 9]]])
+                    cases.append(mk(l, r, ['reach', f, NH4 if f == W.IPV4 else NH6, attrs, entries_for(rng, f, 2)], ['reach', 'as2', 'as4matrix']))
+
     # ---- G. small random mix and a malformed stream
     for _ in range(60 if quick else 1500):
         f = rng.choice([W.IPV4, W.IPV6])
